@@ -19,7 +19,10 @@ RULE = ("run: real multi-threaded Bencher runs (threads T in {2,3,4,8}, sample_c
         "leaves must be enabled), the extracted `log_sb` checks the phase order on the observed global order and the "
         "recorded allocation info (sample index -> tally) must equal the extracted `records` (index r*T+t holds thread "
         "t's own tally of round r, no entry for an empty tally); allocation masks make any subset of the threads "
-        "allocate in its timed section (only the last thread, all but thread 0, none, random, different per round). panic: T in {2,3}, a panic injected at every "
+        "allocate in its timed section (only the last thread, all but thread 0, none, random, different per round), and "
+        "per-thread behaviours (allocate, allocate+free, free-only from a pool pre-filled on another thread, shrink-only on "
+        "pre-grown vectors, nothing) over >= 3 rounds; the full tally (alloc, dealloc, grow, shrink counts and bytes) of every "
+        "recorded sample is compared. panic: T in {2,3}, a panic injected at every "
         "(thread, phase in {first/last generator call, first/last benchmarked call, first output drop, first input "
         "drop}) in round 0 or 1, plus two-thread and all-thread panics, each under a watchdog (outcome `hang`). "
         "Non-trivial = the model accepted the whole log and the run had >= 2 threads; distinct by case line. "
@@ -54,8 +57,12 @@ def case_line(T, S, n, sh, path, seed, jit, slow=0, skipext=0, fault="none", han
             f"skipext={skipext} hang_ms={hang_ms} test={test}" + (f" mask={mask}" if mask else "") + f" fault={fault}")
 
 
+BEHAVIOURS = "01bfs"   # per thread: nothing, allocate, allocate+free, free-only, shrink-only
+
+
 def masks_for(T, rng, kind):
-    """Which threads allocate in their timed section, per round (cycling): '1' = allocates."""
+    """What each thread does in the calls of its timed section, per round (cycling): '0' nothing, '1' allocate,
+    'b' allocate and free, 'f' free blocks allocated before the run, 's' shrink vectors grown before the run."""
     if kind == "last":
         return "0" * (T - 1) + "1"
     if kind == "not0":
@@ -66,6 +73,14 @@ def masks_for(T, rng, kind):
         return "1" + "0" * (T - 1)
     if kind == "rand":
         return "".join(rng.choice("01") for _ in range(T))
+    if kind == "freeonly":
+        return "f" * T
+    if kind == "shrinkonly":
+        return "s" * T
+    if kind == "behav":      # one behaviour per thread, the same in every round
+        return "".join(rng.choice(BEHAVIOURS) for _ in range(T))
+    if kind == "behavround":  # a different assignment in each of up to three rounds
+        return ",".join("".join(rng.choice(BEHAVIOURS) for _ in range(T)) for _ in range(rng.choice([2, 3])))
     # a different random subset in each of up to three rounds
     return ",".join("".join(rng.choice("01") for _ in range(T)) for _ in range(rng.choice([2, 3])))
 
@@ -114,7 +129,8 @@ def hist_of(cases):
     for c in cases:
         d = kvs(c)
         m = d.get("mask")
-        k = "mask=" + ("all" if not m else "per-round" if "," in m else "none" if "1" not in m else "subset")
+        k = "mask=" + ("all-allocate" if not m else "free/shrink-only-threads" if ("f" in m or "s" in m) else
+                       "per-round" if "," in m else "none" if "1" not in m and "b" not in m else "subset")
         h[k] = h.get(k, 0) + 1
         for key in ("T", "n", "sh", "path", "jit", "R"):
             k = f"{key}={d.get(key)}"
@@ -127,7 +143,7 @@ def hist_of(cases):
 
 def streams(tier, rng):
     quick = tier == "quick"
-    n_run = 260 if quick else 6000
+    n_run = 330 if quick else 6000
     corpus = corpus_cases()
     run = [c for c in corpus if "fault=none" in c]
     pan = [c for c in corpus if "fault=none" not in c]
@@ -147,6 +163,12 @@ def streams(tier, rng):
             sh, path = rng.choice(SHAPES)
             run.append(case_line(T, T * rng.choice([2, 3]), rng.choice([1, 2]), sh, path, rng.getrandbits(32),
                                  rng.choice([0, 1]), skipext=rng.randrange(2), mask=masks_for(T, rng, kind)))
+    # behaviours: free-only / shrink-only threads (memory owned elsewhere), >= 3 rounds, every type shape once
+    for T in (2, 3, 4):
+        for kind in ("freeonly", "shrinkonly", "behav", "behav", "behavround"):
+            for sh, path in rng.sample(SHAPES, 3) + [("00", "z")]:
+                run.append(case_line(T, T * rng.choice([3, 4]), rng.choice([1, 2]), sh, path, rng.getrandbits(32),
+                                     rng.choice([0, 1]), skipext=rng.randrange(2), mask=masks_for(T, rng, kind)))
     for T in (2, 3, 8):   # Action::Test goes through the same barrier protocol
         for sh, path in SHAPES[1::2]:
             run.append(case_line(T, 2 * T, 3, sh, path, rng.getrandbits(32), rng.choice([1, 2, 3, 4]), slow=rng.randrange(T), test=1))
@@ -156,7 +178,7 @@ def streams(tier, rng):
         n = rng.choice([1, 1, 2, 3, 4])
         S = rng.choice([1, T, T, 2 * T, 2 * T + 1, 3 * T])
         jit = rng.choice([0, 1, 1, 1, 2, 3, 4])
-        mask = masks_for(T, rng, rng.choice(["last", "not0", "none", "rand", "perround"])) if rng.random() < 0.3 else ""
+        mask = masks_for(T, rng, rng.choice(["last", "not0", "none", "rand", "perround", "behav", "behavround"])) if rng.random() < 0.4 else ""
         run.append(case_line(T, S, n, sh, path, rng.getrandbits(32), jit, slow=rng.randrange(T), skipext=rng.randrange(2),
                              mask=mask))
 
